@@ -39,4 +39,9 @@ CHECKS['C15'] = {'text': 'Real QR_Decomposition (Householder_Matrix, block-matri
    '(n<=2 quick, n=3 thorough under a cap). Reachability query: for a symmetric (diagonal) matrix and an exact eigenvalue the exit() inside the inverse iteration is reachable - reported as the known finding below and replayed through Eigensystem.',
    'note': 'Convergence/termination of the QR iteration and of the inverse iteration, and therefore the spectrum clauses of Eigenvalues/Eigensystem, are NOT decided (data-dependent iteration counts; DESIGN.md 1.8). One known finding (not a small fix) is listed in known_findings.json.',
    'technique': EA}
+BOTH = 'symbolic execution of clang-14 LLVM IR of the real functions: own interpreter with exact reals + z3 (EA) and IR->C translation checked by CBMC on IEEE doubles with unwinding assertions (BP); counterexamples replayed on the native g++ build'
+CHECKS['C02'] = {'text': 'Real Find_Root with the user function uninterpreted, all paths up to K Ridder iterations from entry (K=2 quick, 3 thorough): the process exits only when F(lo)*F(hi) > 0 and after a diagnostic; every evaluation point and the returned value lie in the closed bracket; a zero bracket end is returned as is; '
+   'both orders of the ends give identical result terms; linear functions return -nu/mu exactly within 4 evaluations; every divisor and sqrt argument is valid. CBMC on the IR-derived C decides the entry logic for ALL double pairs of end values: NaN end => exit after diagnostic, same strict sign => exit, zero end returned, opposite strict signs => the Ridder branch is entered.',
+   'note': 'The accuracy clause (sign change within xAccuracy of the result) is NOT decided (z3 unknown; DESIGN.md C02.7), nor behaviour beyond K iterations. The BP obligation found the underflow defect, repaired in /repo by a fix: commit.',
+   'technique': BOTH}
 NOT_APPLICABLE = {}
